@@ -40,6 +40,8 @@ class LoopSpec:
 
     # -------------------------------------------------------------- helpers
     def _call_spec(self, I, qual, st):
+        if callable(qual):
+            return [("val", qual(I, st), st)]
         fn, mod, cls = I.index.functions[qual]
         args = []
         for p in fn.args.args:
@@ -49,7 +51,10 @@ class LoopSpec:
         return I.call_function(fn, mod, cls, args, {}, st, qual)
 
     def _eval_bool(self, I, qual, st):
-        """-> list of (truth term, state)"""
+        """-> list of (truth term, state).  `qual` is the qualified name of a spec function, or a Python callable (I, st) -> z3 Bool
+        (for invariants that need a quantifier over the positions of a symbolic string)"""
+        if callable(qual):
+            return [(qual(I, st), st)]
         out = []
         for k, v, s in self._call_spec(I, qual, st):
             if k == "exc":
